@@ -2073,8 +2073,16 @@ impl<'a> Ctx<'a> {
     fn lower_float_literal(&mut self, float_literal: ast::FloatLiteral) -> Expr {
         let value = float_literal
             .value(self.tree)
-            .and_then(|int| int.text(self.tree).replace('_', "").parse().ok())
-            .unwrap();
+            .and_then(|int| int.text(self.tree).replace('_', "").parse().ok());
+
+        // the lexer also takes digits that aren't ASCII (`.߄`), which don't parse as a number
+        let Some(value) = value else {
+            self.diagnostics.push(LoweringDiagnostic {
+                kind: LoweringDiagnosticKind::OutOfRangeIntLiteral,
+                range: float_literal.range(self.tree),
+            });
+            return Expr::Missing;
+        };
 
         Expr::FloatLiteral(value)
     }
